@@ -23,11 +23,11 @@ import (
 // ref-map model.
 
 type c20Op struct {
-	Kind    string `json:"kind"` // commit | dirty | clean | tag | version | tagger
-	Arg     string `json:"arg,omitempty"`
-	Annot   bool   `json:"annotated,omitempty"`
-	Back    int    `json:"back,omitempty"`    // tag: how many commits behind HEAD
-	DryRun  string `json:"dry_run,omitempty"` // tagger: "" (flag omitted) | true | false
+	Kind   string `json:"kind"` // commit | dirty | clean | tag | version | tagger
+	Arg    string `json:"arg,omitempty"`
+	Annot  bool   `json:"annotated,omitempty"`
+	Back   int    `json:"back,omitempty"`    // tag: how many commits behind HEAD
+	DryRun string `json:"dry_run,omitempty"` // tagger: "" (flag omitted) | true | false
 }
 
 type c20Case struct {
@@ -99,6 +99,47 @@ var c20Versions = []string{"v3.0.0", "v3.0.1", "v3.1.0", "v3.2.0", "v3.2.1", "v3
 var c20Foreign = []string{"v3", "v4", "v2", "v3.1", "v3.2", "nightly", "latest", "release-candidate", "docs-2024", "v3-old", "mockery-v3",
 	// names under which the tags the tool wants to write become directories (D/F conflict)
 	"v3/legacy", "v4/x", "v3.2.0/hotfix", "archive/v3.0.0"}
+
+// c20Ladder is one major's precedence ladder (ascending; the build-metadata entry equals its
+// neighbour), with and without the v prefix: the directed part of the campaign puts every rung
+// against its neighbours (quick) or against every rung (thorough) as (existing tag, requested).
+var c20Ladder = []string{"v3.0.0", "3.0.1", "v3.1.0", "v3.2.0-alpha.1", "v3.2.0-beta", "v3.2.0-rc.1", "v3.2.0-rc.2", "v3.2.0-rc.10", "v3.2.0", "v3.2.0+build.5", "3.2.1", "v3.9.0", "v3.10.0", "3.10.1", "v3.11.0"}
+
+// c20Directed returns the directed histories: (existing tag × requested version) pairs on a
+// clean tree asked to tag, and the refusal matrix (dry-run flag × tree state × version relation).
+func c20Directed(full bool) []c20Case {
+	var out []c20Case
+	for ei := range c20Ladder {
+		for ri := range c20Ladder {
+			if !full && (ri < ei-1 || ri > ei+1) {
+				continue
+			}
+			k := ei + ri
+			ops := []c20Op{{Kind: "commit"}, {Kind: "commit"}, {Kind: "commit"}, {Kind: "tag", Arg: c20Ladder[ei], Annot: k%2 == 0, Back: k % 3}}
+			if k%4 == 1 {
+				ops = append(ops, c20Op{Kind: "pack"})
+			}
+			ops = append(ops, c20Op{Kind: "version", Arg: c20Ladder[ri]}, c20Op{Kind: "tagger", DryRun: "false"})
+			out = append(out, c20Case{Ops: ops})
+		}
+	}
+	for _, dry := range []string{"", "true", "false"} {
+		for _, dirty := range []string{"", "untracked", "modified", "staged-new", "staged-modified", "deleted"} {
+			for _, req := range []string{"v3.3.0", "v3.2.0", "v3.1.0", "banana"} {
+				ops := []c20Op{{Kind: "commit"}, {Kind: "commit"}, {Kind: "tag", Arg: "v3.2.0", Back: 1}, {Kind: "version", Arg: req}}
+				if dirty != "" {
+					ops = append(ops, c20Op{Kind: "dirty", Arg: dirty})
+				}
+				ops = append(ops, c20Op{Kind: "tagger", DryRun: dry})
+				if !full && dry == "false" && dirty != "" && dirty != "modified" {
+					continue
+				}
+				out = append(out, c20Case{Ops: ops})
+			}
+		}
+	}
+	return out
+}
 
 func c20Gen(r *core.Rng) c20Case {
 	cs := c20Case{}
@@ -412,6 +453,12 @@ func evalC20(c *core.Ctx, cs c20Case, id string) Outcome {
 				if !dry && res.Exit == 0 {
 					return mk(i, "exit-0-without-tagging", trig, "'nothing to do' or an error signalled through the exit status", "exit 0, no ref changed")
 				}
+				// a dry run performs the same checks: on a dirty tree, for a version that is not
+				// strictly greater or not a version at all, its exit status says so too (only the
+				// dry run that would have tagged is left unjudged)
+				if dry && res.Exit == 0 && (!clean || !req.ok || len(blocking) > 0) {
+					return mk(i, "dry-run-exit-0-where-tagging-is-refused", trig, "'nothing to do' or an error signalled through the exit status", "exit 0")
+				}
 				out.Tags = append(out.Tags, "probe:refused")
 				continue
 			}
@@ -481,13 +528,20 @@ func c20Prepare(c *core.Ctx) {
 func RunC20(c *core.Ctx) int {
 	c20Prepare(c)
 	n := 200
-	budget := 170 * time.Second
+	budget := 20 * time.Minute // quick: the case count is the contract, the clock only a watchdog
 	if c.Tier == "thorough" {
 		n = 4000
 		budget = 28 * time.Minute
 	}
+	directed := c20Directed(c.Tier == "thorough")
+	n += len(directed)
 	cp := &Campaign[c20Case]{C: c, Engine: "G", N: n, Budget: budget,
-		Gen: func(i int) c20Case { return c20Gen(core.Stream(c.Seed, "c20", i)) },
+		Gen: func(i int) c20Case {
+			if i < len(directed) {
+				return directed[i]
+			}
+			return c20Gen(core.Stream(c.Seed, "c20", i))
+		},
 		Eval: func(cs c20Case, id string) Outcome {
 			o := evalC20(c, cs, id)
 			if o.Sample == nil {
@@ -517,6 +571,7 @@ func RunC20(c *core.Ctx) int {
 	cov := map[string]any{
 		"rule":       "one evaluation = one invocation of the tagger inside a seeded history (5–20 operations: commit, dirty (6 kinds), clean, foreign tag (lightweight/annotated, at HEAD or behind), version change, tagger with the flag omitted/true/false) on a scratch git repository; after every tagger invocation all refs (tags peeled), HEAD, index and work tree are compared with the ref-map model; non-trivial = history of ≥4 operations with ≥1 tagger invocation; distinct = hash of the history",
 		"versions":   c20Versions,
+		"directed":   fmt.Sprintf("%d directed histories first: every rung of a %d-rung precedence ladder (pre-releases, two-digit components, build metadata, with and without v prefix) as existing tag against its neighbours (quick) or every rung (thorough) as requested version; dry-run flag × tree state × version relation matrix", len(directed), len(c20Ladder)),
 		"other_tags": c20Foreign,
 		"components": map[string]any{"real": []string{"tools binary (go-git, viper, cobra, Masterminds/semver)", "git CLI for set-up and observation", "tmpfs"}, "instrumented": []string{}, "stub": []string{}},
 	}
